@@ -891,6 +891,9 @@ ASMJIT_API Error CodeHolder::resolve_cross_section_fixups() noexcept {
         it.resolve_and_next(this);
         continue;
       }
+
+      // The displacement doesn't fit - the fixup stays unresolved and the failure is reported like `bind_label()` does.
+      err = make_error(Error::kInvalidDisplacement);
     }
 
     it.next();
